@@ -7,6 +7,7 @@ and the single-chunk run is compared with the per-line-chunk run.  Only sources 
 in the domain.
 """
 import io
+from .. import ambient
 import itertools
 
 from .. import lexcmp, reflex, progen, layout
@@ -156,7 +157,7 @@ def check_source(ctx, src, tag, files=False):
         with tempfile.TemporaryDirectory() as d:
             p1 = os.path.join(d, 'a.p8')
             with open(p1, 'wb') as fh:
-                fh.write(rc.write_p8(regions, src, version=8))
+                fh.write(rc.write_p8(regions, src, version=ambient.VERSION[0]))
             try:
                 g = p8file.from_file(p1)
             except Exception as e:
@@ -220,7 +221,7 @@ def check_listtokens(ctx, sources, workdir):
     for k, src in enumerate(sources):
         p = os.path.join(workdir, 'lt%d.p8' % k)
         with open(p, 'wb') as fh:
-            fh.write(rc.write_p8(regions, src, version=8))
+            fh.write(rc.write_p8(regions, src, version=ambient.VERSION[0]))
         paths.append(p)
     buf = _io.StringIO()
     old_stream, old_verb = util._write_stream, util._verbosity
@@ -354,7 +355,7 @@ def run_shard(spec, ctx):
         from pico8.lua import lua as _lua
 
         def count(src):
-            return _lua.Lua.from_lines([src], version=8).get_token_count()
+            return _lua.Lua.from_lines([src], version=ambient.VERSION[0]).get_token_count()
         base = {q: count(b'x=' + q) for q in (b'"q"', b"'q'", b'[[q]]', b'[=[q]=]')}
         for sp in (b'.', b':', b')', b']', b'}', b'local', b'end', b'..', b'e', b'1e5', b'(', b'=', b'--', b'', b'if', b'\n'.replace(b'\n', b'n')):
             for q, form in ((b'"q"', b'"%s"'), (b"'q'", b"'%s'"), (b'[[q]]', b'[[%s]]'), (b'[=[q]=]', b'[=[%s]=]')):
@@ -461,7 +462,7 @@ def run_shard(spec, ctx):
                         try:
                             from pico8.lua import lua as _lua
                             for b_ in batch:
-                                _lua.Lua.from_lines([b_], version=8)
+                                _lua.Lua.from_lines([b_], version=ambient.VERSION[0])
                             check_listtokens(ctx, list(batch), d)
                             check_listtokens(ctx, batch[:1], d)
                         except Exception as e:
